@@ -11,7 +11,7 @@ import (
 )
 
 func runC19(c *core.Ctx) {
-	n := c.N(6000, 200000)
+	n := c.N(6000, 1200000)
 	c.SetExhaustive(false)
 	c.Cases("state", n, func(k *core.Case) {
 		r := k.R
